@@ -1001,6 +1001,8 @@ func zzRunC16(r *sim.Run) {
 		f := simnet.Faults{Latency: 5 * time.Millisecond, CutAfter: -1, SilentAfter: -1}
 		if t.Bool("chunky", 1, 2) {
 			f.Chunk = func(n int) int { return 1 + t.Choose("chunk", n) }
+			// the pieces of a frame arrive at different moments: a read may return any prefix
+			f.Jitter = func() time.Duration { return time.Duration(t.Choose("chunk.gap", 4)) * time.Millisecond }
 		}
 		a, bb := simnet.Pipe("peer", "node", f, simnet.Faults{Latency: 5 * time.Millisecond, CutAfter: -1, SilentAfter: -1})
 		// the node under test: a connection with a receiver that accepts all six types
@@ -1213,6 +1215,10 @@ func zzMsgDiff(a, b protocol.Message) string {
 		if p.SpaceID != q.SpaceID || p.Proof.Challenge != q.Proof.Challenge || p.Proof.KSize != q.Proof.KSize || !bytes.Equal(p.Proof.Proof, q.Proof.Proof) ||
 			!p.Proof.PlotPublicKey.Equals(q.Proof.PlotPublicKey) || !p.Proof.PoolPublicKey.Equals(q.Proof.PoolPublicKey) || p.Proof.PuzzleHash != q.Proof.PuzzleHash {
 			return "proof fields differ"
+		}
+		// what the receiver derives: the key the miner puts into the header, the ordinal
+		if p.PublicKey == nil || q.PublicKey == nil || !p.PublicKey.Equals(q.PublicKey) || p.Ordinal != q.Ordinal {
+			return "the proof's public key / ordinal differ"
 		}
 	case *protocol.RequestSignature:
 		y := b.(*protocol.RequestSignature)
